@@ -196,6 +196,11 @@ def verdict (name : String) (b : Bool) : String :=
   if b then "specok" else s!"specfail {name}"
 
 open Lumina.Spec.C13 in
+/-- what the spec sees of an NMT range proof (incl. its inner nodes as 90-byte strings) -/
+def nobs (p : Nmt.NsProof) : NProofObs :=
+  { start := p.start, end_ := p.end_, isAbsence := p.isAbsence, siblings := p.siblings.map Nmt.NsHash.toBytes }
+
+open Lumina.Spec.C13 in
 /-- `specOK` on the implementation's observed result -/
 def spec (st : St) (op : String) (obs : String) : String :=
   let ws := words op
@@ -204,12 +209,24 @@ def spec (st : St) (op : String) (obs : String) : String :=
   | "reset" :: _ => "specskip"
   | "sq" :: _ => "specskip"
   | "sbuild" :: _ =>
-    match os with
-    | "ok" :: _ =>
-      match (arg? os "verify").bind parseResWord with
-      | some v => verdict "C13/shareproof-build" (specShareBuild v)
-      | none => "specfail C13/unparsed"
-    | _ => "specskip"
+    match st, os with
+    | none, _ => "specskip"
+    | some sq, "ok" :: _ =>
+      -- the built proof as observed, with the namespace / rows of the op
+      match hexArg? ws "ns", natArg? ws "r0", (arg? ws "ranges").bind parseRanges,
+            hexListArg? os "data", (arg? os "sproofs").bind parseNProofs, hexListArg? os "roots",
+            (arg? os "proofs").bind parseProofs, (arg? os "verify").bind parseResWord with
+      | some ns, some r0, some ranges, some data, some sps, some roots, some proofs, some v =>
+        let all := (sq.dah.rowRoots ++ sq.dah.colRoots).map Nmt.NsHash.toBytes
+        let spo : ShareProofObs Bytes :=
+          { data := data, ns := ns, sproofs := sps.map nobs,
+            row := { rowRoots := roots, proofs := proofs.map obsOfProof, startRow := r0,
+                     endRow := r0 + ranges.length - 1 } }
+        verdict "C13/shareproof-build"
+          (specShareBuild H h sq.w sq.raw all spo (RowProof.dahHash H (sq.dah.rowRoots.map Nmt.NsHash.toBytes)
+            (sq.dah.colRoots.map Nmt.NsHash.toBytes)) v)
+      | _, _, _, _, _, _, _, _ => "specfail C13/unparsed"
+    | some _, _ => "specfail C13/shareproof-build honest share proof not built"
   | "sverify" :: _ =>
     match st, parseShareProof ws, (arg? ws "root").bind parseRoot, parseRes os with
     | some sq, some sp, some rt, some r =>
@@ -218,10 +235,10 @@ def spec (st : St) (op : String) (obs : String) : String :=
         { rowRoots := sp.rowProof.rowRoots, proofs := sp.rowProof.proofs.map obsOfProof,
           startRow := sp.rowProof.startRow, endRow := sp.rowProof.endRow }
       let spo : ShareProofObs Bytes :=
-        { data := sp.data, ns := sp.namespaceId,
-          sproofs := sp.shareProofs.map (fun p => { start := p.start, end_ := p.end_, isAbsence := p.isAbsence }),
-          row := rpo }
-      verdict "C13/shareproof-verify" (specShareVerify H sq.w sq.raw all spo rt r)
+        { data := sp.data, ns := sp.namespaceId, sproofs := sp.shareProofs.map nobs, row := rpo }
+      if r == .panic && (sp.shareProofs.map (fun p => p.end_ - p.start)).sum > 4294967295 then
+        "specfail C13/shareproof-range-sum-overflow sum of the proven ranges exceeds u32: verification aborts"
+      else verdict "C13/shareproof-verify" (specShareVerify H h sq.w sq.raw all spo rt r)
     | none, _, _, _ => "specskip"
     | _, _, _, _ => "specfail C13/unparsed"
   | "mnew" :: _ =>
